@@ -10,6 +10,8 @@ or DTR0, the abbreviation has been kept in capitals.
 from dali import command
 from dali import address
 from dali import frame
+from dali.exceptions import MissingResponse
+from dali.exceptions import ResponseError
 
 
 class _GearCommand(command.Command):
@@ -686,10 +688,13 @@ class QueryDeviceTypeResponse(command.Response):
               255: "multiple"}
 
     def __str__(self):
-        if self.value and self.value.as_integer in self._types:
-            return self._types[self.value.as_integer]
+        try:
+            if self.value and self.value.as_integer in self._types:
+                return self._types[self.value.as_integer]
+        except (MissingResponse, ResponseError):
+            pass
 
-        return "{}".format(self.value)
+        return super().__str__()
 
 
 class QueryDeviceType(_StandardCommand):
